@@ -5,7 +5,7 @@
 set -u
 WT=$1; NAME=$2; PROP=$3; PKG=$4
 export GOFLAGS=-mod=mod GOPROXY=off GOSUMDB=off GOTOOLCHAIN=local; unset GOWORK
-OUT=/verif/seeded/$NAME; mkdir -p $OUT
+OUT=${SEED_ROOT:-/verif/seeded}/$NAME; mkdir -p $OUT
 cd $WT || exit 2
 git diff > $OUT/patch.diff
 [ -s $OUT/patch.diff ] || { echo "no source change"; exit 2; }
